@@ -28,50 +28,53 @@ def drain {S A : Type} (it : Iter S A) : Nat → S → List A
 
 structure IntSt where
   n : Int
-  i : Int
+  next : Int   -- the next value, never beyond n
+  cur : Int
 
 def intIter : Iter IntSt Int where
-  moveNext s := if s.i + 1 ≥ s.n then (false, s) else (true, { s with i := s.i + 1 })
-  current s := s.i
+  moveNext s := if s.next ≥ s.n then (false, s) else (true, { s with cur := s.next, next := s.next + 1 })
+  current s := s.cur
 
-def newIntIter (n : Int) : IntSt := ⟨n, -1⟩
+def newIntIter (n : Int) : IntSt := ⟨n, 0, 0⟩
 
 /-- Go: `for i := range n` visits 0 … n-1, nothing for n ≤ 0 -/
 def rangeInt (n : Int) : List Int := (List.range n.toNat).map Int.ofNat
 
-theorem drain_int_stop (n i : Int) (f : Nat) (h : i + 1 ≥ n) : drain intIter (f + 1) ⟨n, i⟩ = [] := by
+theorem drain_int_stop (n i c : Int) (f : Nat) (h : i ≥ n) : drain intIter (f + 1) ⟨n, i, c⟩ = [] := by
   simp [drain, intIter, h]
 
-theorem drain_int_go (n i : Int) (f : Nat) (h : ¬ i + 1 ≥ n) :
-    drain intIter (f + 1) ⟨n, i⟩ = (i + 1) :: drain intIter f ⟨n, i + 1⟩ := by
+theorem drain_int_go (n i c : Int) (f : Nat) (h : ¬ i ≥ n) :
+    drain intIter (f + 1) ⟨n, i, c⟩ = i :: drain intIter f ⟨n, i + 1, i⟩ := by
   simp [drain, intIter, h]
 
 theorem drain_int_from (n : Int) (fuel : Nat) :
-    ∀ (i : Int), (n - 1 - i).toNat ≤ fuel →
-      drain intIter fuel ⟨n, i⟩ = (List.range (n - 1 - i).toNat).map fun (j : Nat) => i + 1 + (j : Int) := by
+    ∀ (i c : Int), (n - i).toNat ≤ fuel →
+      drain intIter fuel ⟨n, i, c⟩ = (List.range (n - i).toNat).map fun (j : Nat) => i + (j : Int) := by
   induction fuel with
   | zero =>
-    intro i hf
-    have : (n - 1 - i).toNat = 0 := by omega
+    intro i c hf
+    have : (n - i).toNat = 0 := by omega
     simp [drain, this]
   | succ fuel ih =>
-    intro i hf
-    by_cases hlast : i + 1 ≥ n
-    · have : (n - 1 - i).toNat = 0 := by omega
-      rw [drain_int_stop n i fuel hlast, this]; rfl
-    · rw [drain_int_go n i fuel hlast, ih (i + 1) (by omega)]
-      have hlen : (n - 1 - i).toNat = (n - 1 - (i + 1)).toNat + 1 := by omega
+    intro i c hf
+    by_cases hlast : i ≥ n
+    · have : (n - i).toNat = 0 := by omega
+      rw [drain_int_stop n i c fuel hlast, this]; rfl
+    · rw [drain_int_go n i c fuel hlast, ih (i + 1) i (by omega)]
+      have hlen : (n - i).toNat = (n - (i + 1)).toNat + 1 := by omega
       rw [hlen, List.range_succ_eq_map]
       simp only [List.map_cons, List.map_map]
       congr 1
       · simp
       · apply List.map_congr_left; intro j _; simp; omega
 
-/-- **integerIter = range over int**, for every n (also n ≤ 0) -/
+/-- **integerIter = range over an integer**, for every n (also n ≤ 0).  The Go iterator is generic over the
+    integer types; its counter never exceeds n, so it can not overflow the type and unbounded integers model
+    every instance. -/
 theorem intIter_eq_range (n : Int) : drain intIter (n.toNat + 1) (newIntIter n) = rangeInt n := by
-  have := drain_int_from n (n.toNat + 1) (-1) (by omega)
+  have := drain_int_from n (n.toNat + 1) 0 0 (by omega)
   rw [newIntIter, this]
-  have e : (n - 1 - -1).toNat = n.toNat := by omega
+  have e : (n - 0).toNat = n.toNat := by omega
   rw [e, rangeInt]
   apply List.map_congr_left; intro j _; simp
 
